@@ -66,3 +66,6 @@ pub fn parse_direct(input: &str) -> ParseResult<Vec<AST>> {
         _ => Ok(vec![]),
     }
 }
+
+#[cfg(feature = "verif")]
+pub mod verif_hooks;
